@@ -899,6 +899,8 @@ class Run:
             lst = pa["obj"].bs
             i = a1 % len(lst)
             how = (a2 // 7) % 3
+            if how and "delete-orphan" in self.U["cfg"]["bs"] and any(OS.state_of(x) != "persistent" for x in lst):
+                how = 0      # R2: a swap takes a member out for a moment; a pending member of a delete-orphan parent is expunged on the spot
             if how == 0:
                 lst[i] = lst[i]
             elif how == 1:
